@@ -44,6 +44,18 @@ def region_jobs(tier):
                   kind="proof", unwind=3, functions=F_REGION, assumptions=A_REGION, timeout=900, min_props=6,
                   domain="destination alpha map of zero width or height (legal object), everything else symbolic: the intersection "
                          "is empty, the function must return FALSE"))
+    # (lead) clip regions carried by the alpha map of the source / of the mask (seeds C03-1, C03-4)
+    for who, code in (("src", 1), ("mask", 2)):
+        js.append(Job("region.amapclip.%s" % who, "C03/region.c", defines={"VC_AMAPCLIP": code, "VC_DCLIP": 0, "VC_DALPHA": 0},
+                      kind="proof", unwind=3, functions=F_REGION, timeout=900, min_props=6,
+                      assumptions=[a for a in A_REGION if "alpha maps carry no clip" not in a] + [
+                          "alpha-map clip jobs: request coordinates, alpha origins and the alpha-map clip lie in [-2^27, 2^27]; destination without "
+                          "clip and alpha map (those constraints are the other region.* jobs)",
+                          "reading of the property for an alpha map's clip: it is a clip of the image it belongs to, positioned by that image's "
+                          "alpha origin (alpha-map pixel (0,0) <-> image pixel (origin_x, origin_y), as for the destination alpha-map bounds); for the "
+                          "mask only the case 'mask has a clip region of its own' is specified (the code ignores the alpha-map clip otherwise)"],
+                      domain="the %s has an alpha map whose clip region (one rectangle or empty) is enabled for sources; everything else as in "
+                             "region.*: p in region <=> p in S, S including p - (dest - %s_xy + %s alpha origin) in the alpha map's clip" % (who, who, who)))
     if tier != "quick":
         js.append(Job("region.all_flags_symbolic", "C03/region.c", defines={}, kind="proof", unwind=3, functions=F_REGION,
                       assumptions=A_REGION, timeout=3600, min_props=6,
